@@ -445,8 +445,8 @@ def run(ctx):
         except FileNotFoundError:
             pass
         scs = [parse(o) for o in known + corpus]
-        nst = ctx.scale(200, 12000)
-        nmp = ctx.scale(80, 4000)
+        nst = ctx.scale(200, 5000)
+        nmp = ctx.scale(80, 1500)
         scs += [gen_stream(ctx.rng, ctx.thorough) for _ in range(nst)]
         scs += [gen_map(ctx.rng, ctx.thorough, gen_payloads) for _ in range(nmp)]
     ops = [fmt(sc) for sc in scs]
